@@ -1021,6 +1021,7 @@ def t6(facts, tier):
                                     why = "the bulk read does not cover size_of::<T>()*N bytes or its error is not propagated"
                     if in_fill:
                         ok, why = False, "it is inside the fill loop"
-                    yield ob(["C06"], "T6", key, "pass" if ok else "violation", where(f, x),
+                    unknown_fill = not ok and not fills and not bulk     # initialised by an idiom this rule does not model
+                    yield ob(["C06"], "T6", key, "pass" if ok else ("undecided" if unknown_fill else "violation"), where(f, x),
                              f"{f['id']}: `{Dk}` is read as `[{elem}; {N}]` after a complete fill" if ok else
                              f"{f['id']}: `{Dk}` is read as an initialised `[{elem}; {N}]` but {why}")
